@@ -47,6 +47,7 @@ REQUIRED_REACH = [
     "probe:directive_in_macro_or_loop",
     "probe:patch_from_a816_ipswriter",
     "probe:patch_included_twice",
+    "probe:directive_through_assemble_as_patch_copier",
 ]
 
 FREE_LO, FREE_HI = 0x100000, 0x2F0000  # physical zone the host never writes (far banks are off)
@@ -321,8 +322,21 @@ def run_single(case: dict[str, Any], stats: Stats) -> list[Violation]:
         files[ppath] = stored
     knobs = case.get("knobs") or {}
     spec = {"entry": "string", "src": "main.s", "rom": host.mapping}
+    front = case.get("front_end")
+    if front:
+        # the same thing through a file front end: observed in the bytes of the produced patch
+        spec = {"entry": "patch", "src": "main.s", "mapping": host.mapping, "copier": front == "copier", "out": "out.ips"}
+        roles["out.ips"] = "out_ips"
+        stats.bump("probe:directive_through_assemble_as_patch" + ("_copier" if front == "copier" else ""))
     o = entries.execute_one(files, roles, spec, knobs, faults)
     stats.add_outcome(o)
+    if front and o["ok"]:
+        data = entries.get_out(o, "out.ips")
+        try:
+            o["blocks"] = [(r[0] - (0x200 if front == "copier" else 0), ipsref.record_bytes(r)) for r in ipsref.parse(data or b"")]
+        except ipsref.IpsFormatError as e:
+            return [Violation("front_end_patch_malformed", e.klass, f"assemble_as_patch produced a malformed IPS file: {e}", case)]
+        o["labels"] = base_twin["labels"] if o["labels"] is None else o["labels"]
     delta = case["delta"]
     klass = "missing" if case.get("missing") else ipsref.classify(stored)
     # ---- reach statistics
@@ -441,6 +455,8 @@ def sub_cases(case: dict[str, Any]) -> Iterator[dict[str, Any]]:
     eof_at = len(good) - 3
     aimed = [b for b in (eof_at + 1, eof_at + 2, (eof_at + 1) // 2, (eof_at + 2) // 2, (eof_at + 1) // 3, (eof_at + 2) // 3) if b >= 16]
     yield dict(base, knobs={})
+    yield dict(base, knobs=knobs_for(krng), front_end="copier")
+    yield dict(base, knobs={}, front_end="plain")
     for b in aimed[:3]:
         yield dict(base, knobs={"bufsize": b})
     for _ in range(4):
@@ -536,6 +552,8 @@ def shrink_candidates(case: dict[str, Any]) -> Iterator[dict[str, Any]]:
         yield c
     if case.get("second_delta") is not None:
         yield dict(case, second_delta=None)
+    if case.get("front_end"):
+        yield dict(case, front_end=None)
     if case.get("patch_path") not in (None, "p.ips"):
         yield dict(case, patch_path="p.ips")
     if case.get("delta") and not case.get("damage"):
